@@ -32,6 +32,9 @@ def enum_small(nts=('S', 'A'), ts=('a', 'b'), max_rules=3, max_rhs=2, allow_erro
                                 used_nt.add(x); changed = True
             if any(l not in used_nt for l, _ in rules):
                 continue
+            haverules = {l for l, _ in rules}
+            if any(x in nts and x not in haverules for _, r in rules for x in r):
+                continue      # a nonterminal without rules on a right side: degenerate (covered once by the catalogue)
             lhs = [n for n in nts if any(l == n for l, _ in rules) or n in used_nt]
             yield [(l, r, 0) for l, r in rules], lhs
 
@@ -95,6 +98,20 @@ def sentences(g, rng, count, max_len=40, max_steps=400):
                 mn[l] = tot; changed = True
     if mn.get(g.root, INF) >= INF:
         return []
+    # derivation height: the forced choice below must strictly decrease it (termination also for unit cycles S -> A, A -> S | a)
+    ht = {n: INF for n in g.nts}
+    changed = True
+    while changed:
+        changed = False
+        for (l, r, _) in g.rules:
+            if 'error' in r or any(x in ht and ht[x] >= INF for x in r):
+                continue
+            h = 1 + max([ht[x] for x in r if x in ht] + [0])
+            if h < ht[l]:
+                ht[l] = h; changed = True
+
+    def rule_ht(r):
+        return 1 + max([ht[x] for x in r if x in ht] + [0])
     res = []
     for _ in range(count * 4):
         form = [g.root]
@@ -111,8 +128,10 @@ def sentences(g, rng, count, max_len=40, max_steps=400):
             alts = [r for r in byl.get(x, []) if 'error' not in r and all((y not in mn) or mn[y] < INF for y in r)]
             if not alts:
                 ok = False; break
+            if steps > max_steps * 3:
+                ok = False; break
             if steps > max_steps or len(out) + len(form) > budget:
-                alts = sorted(alts, key=lambda r: sum(mn[y] if y in mn else 1 for y in r))[:1]
+                alts = sorted(alts, key=lambda r: (rule_ht(r), sum(mn[y] if y in mn else 1 for y in r)))[:1]
             r = rng.choice(alts)
             form = list(r) + form
             if len(out) > max_len * 2:
